@@ -99,7 +99,10 @@ META = {
         "nodes only name transformer components that always exist (html_meta's component='writer' is a known finding). R27 a key or value of a YAML-loaded mapping (followed into the package methods it is passed to) reaches docutils' Text / "
         "TextElement(raw, text) constructors only as a provable str - str(..), an isinstance guard or the normalisation `if not "
         "isinstance(k, str): k = str(k)` - because nodes.Text raises TypeError for bytes (read from docutils/nodes.py). R23 also covers a "
-        "list of traversals materialised before the loop. R18(b) also judges module-level Jinja environments. "
+        "list of traversals materialised before the loop, and a node found by a deep traversal of R that is detached from R itself instead of "
+        "from its own parent. R20 accepts the membership test inside the traversal's predicate function; R17/R24 recognise the hiding "
+        "transform when its test lives in a predicate method and the replacement in a helper; R5 accepts an iterator-stack tree walk and a "
+        "snapshot that is updated together with the shrinking buffer. R18(b) also judges module-level Jinja environments. "
         "R24 a registered transform with a priority below sphinx's HandleCodeBlocks takes every childless block_quote that carries a basic "
         "attribute out of the tree (facts read from sphinx/transforms). R25 every text handed to markdown-it's block parser provably ends "
         "with a line feed (the plugins' block rules read the start of the next line unchecked). R26 render_substitution never renders "
@@ -1210,13 +1213,16 @@ def _fixpoint_on_shrinking_buffer(w: ast.While, fi: FunctionInfo, corpus: Corpus
             continue
         ok = True
         for x in ast.walk(w):
-            if isinstance(x, ast.Assign) and any(unparse(tg) == btxt for tg in x.targets):
+            if isinstance(x, ast.Assign) and x is not first and any(unparse(tg) in (btxt, snap.id) for tg in x.targets):
+                # the buffer - and the snapshot along with it - may only become a strict suffix of what it was
                 v = x.value
+                if not all(unparse(tg) in (btxt, snap.id) for tg in x.targets):
+                    ok = False
                 if not (isinstance(v, ast.Subscript) and isinstance(v.slice, ast.Slice) and v.slice.upper is None and v.slice.step is None and v.slice.lower is not None and unparse(v.value) in (snap.id, btxt)):
                     ok = False
-            elif isinstance(x, ast.AugAssign) and unparse(x.target) == btxt:
+            elif isinstance(x, ast.AugAssign) and unparse(x.target) in (btxt, snap.id):
                 ok = False
-            elif isinstance(x, ast.Name) and x.id == snap.id and isinstance(x.ctx, ast.Store) and parent(x) is not first:
+            elif isinstance(x, ast.Name) and x.id == snap.id and isinstance(x.ctx, ast.Store) and not isinstance(parent(x), ast.Assign):
                 ok = False
             elif isinstance(x, ast.Call) and isinstance(x.func, ast.Attribute):
                 recv = x.func.value
@@ -1234,8 +1240,38 @@ def _fixpoint_on_shrinking_buffer(w: ast.While, fi: FunctionInfo, corpus: Corpus
     return None
 
 
+def _iterator_stack_walk(w: ast.While, fi: FunctionInfo) -> str | None:
+    """``while stack: for child in stack[-1]: ...; stack.append(iter(child)); break  else: stack.pop()``: a depth-first
+    walk with an explicit stack of child iterators - every round either consumes one element of a (finite) iterator and
+    pushes the iterator of that element, or pops an exhausted one; each element of the finite tree is consumed once."""
+    if not isinstance(w.test, ast.Name) or len(w.body) != 1 or not isinstance(w.body[0], ast.For):
+        return None
+    S = w.test.id
+    lp = w.body[0]
+    if not (isinstance(lp.iter, ast.Subscript) and isinstance(lp.iter.value, ast.Name) and lp.iter.value.id == S and unparse(lp.iter.slice) == "-1" and isinstance(lp.target, ast.Name)):
+        return None
+    child = lp.target.id
+    if not (lp.body and isinstance(lp.body[-1], ast.Break)):
+        return None
+    pops = [c for b in lp.orelse for c in ast.walk(b) if isinstance(c, ast.Call) and isinstance(c.func, ast.Attribute) and c.func.attr == "pop" and unparse(c.func.value) == S]
+    if not pops:
+        return None
+    for c in ast.walk(w):
+        if isinstance(c, ast.Call) and isinstance(c.func, ast.Attribute) and unparse(c.func.value) == S and c.func.attr in _GROWERS:
+            a0 = c.args[0] if c.args else None
+            inner = a0.args[0] if isinstance(a0, ast.Call) and dotted(a0.func) in ("iter", "reversed") and len(a0.args) == 1 else None
+            root = inner
+            while isinstance(root, ast.Attribute):
+                root = root.value
+            if not (c.func.attr == "append" and isinstance(root, ast.Name) and root.id == child and any(c is x for b in lp.body for x in ast.walk(b))):
+                return None
+        if isinstance(c, ast.Name) and c.id == S and isinstance(c.ctx, (ast.Store, ast.Del)):
+            return None
+    return f"iterator-stack tree walk: every round consumes one element of `{S}[-1]` and pushes that element's iterator, or pops an exhausted iterator (finite tree)"
+
+
 def _loop_variant(w: ast.While, fi: FunctionInfo, corpus: Corpus) -> str | None:
-    v0 = _fixpoint_on_shrinking_buffer(w, fi, corpus)
+    v0 = _fixpoint_on_shrinking_buffer(w, fi, corpus) or _iterator_stack_walk(w, fi)
     if v0:
         return v0
     test = _effective_test(w)
@@ -3234,6 +3270,75 @@ def _transitions_asserts_parent(corpus: Corpus) -> bool:
     return corpus.cache("c01-transitions-assert", compute)
 
 
+def _package_callee(ci, fi: FunctionInfo, call: ast.Call) -> FunctionInfo | None:
+    """``self.m(..)`` / ``cls.m(..)`` -> the method of the class (or a base in the package); ``f(..)`` -> the module function."""
+    fn = call.func
+    if isinstance(fn, ast.Attribute) and isinstance(fn.value, ast.Name) and fn.value.id in ("self", "cls"):
+        return ci.methods.get(fn.attr) if ci is not None else None
+    if isinstance(fn, ast.Name):
+        return fi.module.functions.get(fn.id)
+    return None
+
+
+def _replaces_node(ci, fi: FunctionInfo, stmts: list, v: str) -> bool:
+    """The statements take the node ``v`` out of the tree: ``v.replace_self(..)`` / ``v.parent.remove|replace(v..)``,
+    directly or in a helper of the package that does it to the parameter ``v`` is passed for."""
+
+    def direct(c: ast.AST, name: str) -> bool:
+        return isinstance(c, ast.Call) and isinstance(c.func, ast.Attribute) and (
+            (c.func.attr == "replace_self" and unparse(c.func.value) == name) or (c.func.attr in ("remove", "replace") and unparse(c.func.value) == f"{name}.parent")
+        )
+
+    for b in stmts:
+        for c in ast.walk(b):
+            if direct(c, v):
+                return True
+            if isinstance(c, ast.Call) and any(isinstance(a_, ast.Name) and a_.id == v for a_ in c.args):
+                H = _package_callee(ci, fi, c)
+                if H is None or H.is_lambda:
+                    continue
+                pos = [x.arg for x in H.node.args.posonlyargs + H.node.args.args]
+                if H.cls is not None and "staticmethod" not in H.decorators():
+                    pos = pos[1:]
+                for i, a_ in enumerate(c.args):
+                    if isinstance(a_, ast.Name) and a_.id == v and i < len(pos):
+                        pname = pos[i]
+                        if not any(isinstance(x, ast.Name) and x.id == pname and isinstance(x.ctx, ast.Store) for x in H.local_nodes()):
+                            hcfg = get_cfg(H)
+                            hits = [hcfg.stmt_of(x) for x in H.local_nodes() if direct(x, pname)]
+                            if hits and not hcfg.paths_avoiding("ENTRY", "EXIT", lambda nd: any(nd is h_ for h_ in hits)):
+                                return True
+    return False
+
+
+def _is_not_document_or_section(t: ast.expr, v: str, scope: list) -> bool:
+    """``not isinstance(S, document|section)`` where S is ``v.parent`` or a local that starts as ``v.parent`` and only
+    climbs out of sections (`while isinstance(p, nodes.section): p = p.parent`) - then what the test lets through still
+    has a section or the document as its direct parent."""
+    if not (isinstance(t, ast.UnaryOp) and isinstance(t.op, ast.Not) and isinstance(t.operand, ast.Call) and dotted(t.operand.func) == "isinstance" and len(t.operand.args) == 2):
+        return False
+    subject = t.operand.args[0]
+    if unparse(subject) != f"{v}.parent":
+        if not isinstance(subject, ast.Name):
+            return False
+        pdefs = [d for d in scope if isinstance(d, ast.Assign) and len(d.targets) == 1 and isinstance(d.targets[0], ast.Name) and d.targets[0].id == subject.id]
+        start = [d for d in pdefs if unparse(d.value) == f"{v}.parent"]
+        climbs = [d for d in pdefs if unparse(d.value) == f"{subject.id}.parent"]
+        if len(start) != 1 or len(start) + len(climbs) != len(pdefs):
+            return False
+        for d in climbs:
+            wl = next((a for a in ancestors(d) if isinstance(a, ast.While)), None)
+            tt = wl.test if wl is not None else None
+            if not (isinstance(tt, ast.Call) and dotted(tt.func) == "isinstance" and len(tt.args) == 2 and unparse(tt.args[0]) == subject.id):
+                return False
+            cl = tt.args[1].elts if isinstance(tt.args[1], ast.Tuple) else ([tt.args[1].left, tt.args[1].right] if isinstance(tt.args[1], ast.BinOp) else [tt.args[1]])
+            if not all((dotted(c_) or "").rsplit(".", 1)[-1] == "section" for c_ in cl):
+                return False
+    tp = t.operand.args[1]
+    classes = tp.elts if isinstance(tp, ast.Tuple) else ([tp.left, tp.right] if isinstance(tp, ast.BinOp) and isinstance(tp.op, ast.BitOr) else [tp])
+    return bool(classes) and all((dotted(c_) or "").rsplit(".", 1)[-1] in ("document", "section") for c_ in classes)
+
+
 def _transitions_hidden_by(corpus: Corpus) -> tuple[str | None, str]:
     """(name, reason) of a transform of the package that takes every transition whose parent is not the document / a
     section out of the tree BEFORE docutils' Transitions transform runs, and that both parsers register; else (None, why)."""
@@ -3258,37 +3363,18 @@ def _transitions_hidden_by(corpus: Corpus) -> tuple[str | None, str]:
                     if not isinstance(st, ast.If):
                         continue
                     t = st.test
-                    if not (isinstance(t, ast.UnaryOp) and isinstance(t.op, ast.Not) and isinstance(t.operand, ast.Call) and dotted(t.operand.func) == "isinstance" and len(t.operand.args) == 2):
-                        continue
-                    subject = t.operand.args[0]
-                    if unparse(subject) != f"{v}.parent":
-                        # ... or an ancestor reached from `v.parent` by climbing out of sections only:
-                        # `p = v.parent; while isinstance(p, nodes.section): p = p.parent` - whatever is NOT hidden then
-                        # still has a section or the document as its direct parent
-                        if not isinstance(subject, ast.Name):
-                            continue
-                        pdefs = [d for b in lp.body for d in ast.walk(b) if isinstance(d, ast.Assign) and len(d.targets) == 1 and isinstance(d.targets[0], ast.Name) and d.targets[0].id == subject.id]
-                        start = [d for d in pdefs if unparse(d.value) == f"{v}.parent"]
-                        climbs = [d for d in pdefs if unparse(d.value) == f"{subject.id}.parent"]
-                        if len(start) != 1 or len(start) + len(climbs) != len(pdefs):
-                            continue
-                        ok_climb = True
-                        for d in climbs:
-                            wl = next((a for a in ancestors(d) if isinstance(a, ast.While)), None)
-                            tt = wl.test if wl is not None else None
-                            if not (isinstance(tt, ast.Call) and dotted(tt.func) == "isinstance" and len(tt.args) == 2 and unparse(tt.args[0]) == subject.id):
-                                ok_climb = False
-                                continue
-                            cl = tt.args[1].elts if isinstance(tt.args[1], ast.Tuple) else ([tt.args[1].left, tt.args[1].right] if isinstance(tt.args[1], ast.BinOp) else [tt.args[1]])
-                            if not all((dotted(c_) or "").rsplit(".", 1)[-1] == "section" for c_ in cl):
-                                ok_climb = False
-                        if not ok_climb:
-                            continue
-                    tp = t.operand.args[1]
-                    classes = tp.elts if isinstance(tp, ast.Tuple) else ([tp.left, tp.right] if isinstance(tp, ast.BinOp) and isinstance(tp.op, ast.BitOr) else [tp])
-                    if not classes or not all((dotted(c_) or "").rsplit(".", 1)[-1] in ("document", "section") for c_ in classes):
-                        continue
-                    if any(isinstance(c, ast.Call) and isinstance(c.func, ast.Attribute) and ((c.func.attr == "replace_self" and unparse(c.func.value) == v) or (c.func.attr in ("remove", "replace") and unparse(c.func.value) == f"{v}.parent")) for b in st.body for c in ast.walk(b)):
+                    nested_test = _is_not_document_or_section(t, v, [x for b in lp.body for x in ast.walk(b)])
+                    if not nested_test and isinstance(t, ast.Call) and len(t.args) == 1 and isinstance(t.args[0], ast.Name) and t.args[0].id == v:
+                        # the test lives in a predicate of the package: `if self._is_nested(node):`
+                        P = _package_callee(ci, ap, t)
+                        if P is not None:
+                            pos = [x.arg for x in P.node.args.posonlyargs + P.node.args.args]
+                            if P.cls is not None and "staticmethod" not in P.decorators():
+                                pos = pos[1:]
+                            rets = [r_.value for r_ in P.local_nodes() if isinstance(r_, ast.Return) and r_.value is not None]
+                            if len(pos) == 1 and rets and all(_is_not_document_or_section(rv, pos[0], list(P.local_nodes())) for rv in rets):
+                                nested_test = True
+                    if nested_test and _replaces_node(ci, ap, st.body, v):
                         handles = True
             if not handles:
                 continue
@@ -3590,6 +3676,49 @@ def fi_site(pair) -> str:
 # ``del node["k"]`` therefore needs ``"k" in node`` before it reads ``node["k"]``.
 
 
+def _traversal_predicate_has(corpus: Corpus, f: FunctionInfo, var: str, key: str) -> bool:
+    """``var`` is the variable of a loop over a traversal filtered by a predicate function of the package
+    (``findall(doc)(self._pred)`` / ``doc.findall(pred)``) whose result requires ``key in <node>``."""
+    from ..flow import facts as _atomic
+
+    for lp in f.local_nodes():
+        if not (isinstance(lp, ast.For) and isinstance(lp.target, ast.Name) and lp.target.id == var and isinstance(lp.iter, ast.Call)):
+            continue
+        if any(isinstance(x, ast.Name) and x.id == var and isinstance(x.ctx, ast.Store) and x is not lp.target and not isinstance(parent(x), ast.AugAssign) for x in ast.walk(lp)):
+            continue  # (`node += child` appends to the same docutils element, it does not re-bind the node)
+        it = lp.iter
+        if isinstance(it, ast.Call) and dotted(it.func) in ("list", "tuple") and len(it.args) == 1 and isinstance(it.args[0], ast.Call):
+            it = it.args[0]
+        for a in it.args:
+            name = a.attr if isinstance(a, ast.Attribute) and isinstance(a.value, ast.Name) and a.value.id in ("self", "cls") else (a.id if isinstance(a, ast.Name) else None)
+            if name is None:
+                continue
+            P = (f.cls.methods.get(name) if f.cls is not None and isinstance(a, ast.Attribute) else None) or f.module.functions.get(name)
+            if P is None or P.is_lambda:
+                continue
+            pos = [x.arg for x in P.node.args.posonlyargs + P.node.args.args]
+            if P.cls is not None and "staticmethod" not in P.decorators():
+                pos = pos[1:]
+            if len(pos) != 1:
+                continue
+            rets = [r_.value for r_ in P.local_nodes() if isinstance(r_, ast.Return) and r_.value is not None]
+            if not rets:
+                continue
+            good = True
+            for rv in rets:
+                if isinstance(rv, ast.Constant) and rv.value is False:
+                    continue
+                has = any(
+                    pol and isinstance(t, ast.Compare) and len(t.ops) == 1 and isinstance(t.ops[0], ast.In) and isinstance(t.left, ast.Constant) and t.left.value == key
+                    and isinstance(t.comparators[0], ast.Name) and t.comparators[0].id == pos[0]
+                    for t, pol in _atomic(rv, True)
+                )
+                good = good and has
+            if good:
+                return True
+    return False
+
+
 @rule("C01.R20")
 def r20_transform_reapplication(corpus: Corpus, rep: Report, tier: str):
     rep.rule("C01.R20", "a transform that deletes a node attribute reads that attribute only under a membership test (transforms run twice for rST include with :parser:)")
@@ -3606,7 +3735,7 @@ def r20_transform_reapplication(corpus: Corpus, rep: Report, tier: str):
                 k = f"{f.fq}|del {var}[{key!r}]"
                 bad = None
                 for r in sorted((x for x in f.local_nodes() if isinstance(x, ast.Subscript) and isinstance(x.ctx, ast.Load) and unparse(x.value) == var and isinstance(x.slice, ast.Constant) and x.slice.value == key), key=lambda x: (x.lineno, x.col_offset)):
-                    ok = _inside_try_catching(r, "KeyError")
+                    ok = _inside_try_catching(r, "KeyError") or _traversal_predicate_has(corpus, f, var, key)
                     for t, pol in _facts_at(f, r):
                         if isinstance(t, ast.Compare) and len(t.ops) == 1 and isinstance(t.left, ast.Constant) and t.left.value == key and unparse(t.comparators[0]) == var:
                             if (isinstance(t.ops[0], ast.In) and pol) or (isinstance(t.ops[0], ast.NotIn) and not pol):
@@ -3801,6 +3930,34 @@ def r23_single_removal(corpus: Corpus, rep: Report, tier: str):
                 if isinstance(c, ast.Call) and isinstance(c.func, ast.Attribute)
                 and ((c.func.attr in _DETACH and unparse(c.func.value) in parents and c.args and unparse(c.args[0]) == v) or (c.func.attr == "replace_self" and unparse(c.func.value) == v))
             ]
+            # a node found by a DEEP traversal of R is detached through its own parent: `R.remove(v)` / `R.index(v)` only
+            # work for the direct children of R
+            it0 = lp.iter
+            if isinstance(it0, ast.Call) and dotted(it0.func) in ("list", "tuple", "reversed") and len(it0.args) == 1:
+                it0 = it0.args[0]
+            troot = None
+            if isinstance(it0, ast.Call) and isinstance(it0.func, ast.Attribute) and it0.func.attr in _TRAVERSALS:
+                troot = unparse(it0.func.value)
+            elif isinstance(it0, ast.Call) and isinstance(it0.func, ast.Call) and (dotted(it0.func.func) or "").split(".")[-1] in _TRAVERSALS and it0.func.args:
+                troot = unparse(it0.func.args[0])
+            if troot is not None:
+                via_root = [
+                    c for b in lp.body for c in ast.walk(b)
+                    if isinstance(c, ast.Call) and isinstance(c.func, ast.Attribute) and c.func.attr in _DETACH and unparse(c.func.value) == troot and c.args and unparse(c.args[0]) == v
+                ]
+                if via_root:
+                    n += 1
+                    c0 = via_root[0]
+                    if _inside_try_catching(c0, "ValueError"):
+                        rep.ok("C01.R23", f"{fi.fq}|{short(c0, 40)}", fi.module.site(c0), "guarded by try/except ValueError")
+                    else:
+                        rep.violation(
+                            "C01.R23",
+                            f"{fi.fq}|{unparse(c0.func)}({v}) on the traversal root",
+                            fi.module.site(c0),
+                            f"`{short(c0, 50)}` detaches `{v}`, which the loop found by a deep traversal of `{troot}`, from `{troot}` itself: that only works when `{v}` is a direct "
+                            f"child - a deeper one raises ValueError (list.remove / list.index); detach it through `{v}.parent`",
+                        )
             if not detaches:
                 continue
             roots = _traversal_roots(lp.iter, fi)
@@ -3893,7 +4050,7 @@ def r24_empty_block_quotes(corpus: Corpus, rep: Report, tier: str):
                 continue
             v = lp.target.id
             for st in lp.body:
-                if not (isinstance(st, ast.If) and any(isinstance(c, ast.Call) and isinstance(c.func, ast.Attribute) and c.func.attr == "replace_self" and unparse(c.func.value) == v for b in st.body for c in ast.walk(b))):
+                if not (isinstance(st, ast.If) and _replaces_node(ci, ap, st.body, v)):
                     continue
                 conj = st.test.values if isinstance(st.test, ast.BoolOp) and isinstance(st.test.op, ast.And) else [st.test]
                 childless = any(
@@ -4548,6 +4705,17 @@ def mutants(corpus: Corpus):
         out.append(Mutant("c01-disable-ignore-invalid-false", "C01.R11", mdm_.rel, splice(mdm_.src, dcall.args[1], "False"), expect="unknown names"))
     else:
         out.append(("c01-disable-ignore-invalid-dropped", "create_md_parser does not call md.disable(x, True)"))
+    # --- d4491dc weakened: a message found by a deep traversal is removed from the traversal root (R23) ---
+    f = base.functions.get("DocutilsRenderer._messages_follow")
+    rm = find_node(f, lambda n: isinstance(n, ast.Call) and isinstance(n.func, ast.Attribute) and n.func.attr == "remove" and unparse(n.func.value).endswith(".parent")) if f is not None else None
+    ilp = next((a for a in ancestors(rm) if isinstance(a, ast.For)), None) if rm is not None else None
+    if rm is not None and ilp is not None and isinstance(ilp.iter, ast.Call):
+        it0 = ilp.iter.args[0] if dotted(ilp.iter.func) in ("list", "tuple") and ilp.iter.args else ilp.iter
+        root_ = unparse(it0.func.args[0]) if isinstance(it0, ast.Call) and isinstance(it0.func, ast.Call) and it0.func.args else (unparse(it0.func.value) if isinstance(it0, ast.Call) and isinstance(it0.func, ast.Attribute) else None)
+        if root_:
+            out.append(Mutant("c01-message-removed-from-traversal-root", "C01.R23", base.rel, splice(base.src, rm.func.value, root_), expect="on the traversal root"))
+    else:
+        out.append(("c01-message-removed-from-traversal-root", "_messages_follow: `<msg>.parent.remove(<msg>)` inside a traversal loop not found"))
     # --- 74f6db6: a YAML key handed to nodes.Text without being made a str (R27) ---
     f = base.func("DocutilsRenderer.dict_to_fm_field_list")
     kif = find_node(f, lambda n: isinstance(n, ast.If) and isinstance(n.test, ast.UnaryOp) and "isinstance(key, str)" in unparse(n.test))
